@@ -10,7 +10,7 @@ patch.diff), the check is run with scratch replay / evidence directories, and th
 import json, os, subprocess, sys, time, re
 VERIF = os.path.dirname(os.path.dirname(os.path.abspath(__file__)))
 SEEDED = os.path.join(VERIF, "seeded")
-EXTRA = {"C01-a": ["C05"], "C01-b": ["C05"], "C01-d": ["C05"], "C16-c": ["C15"]}  # related checks worth running too
+EXTRA = {"C01-a": ["C05"], "C01-b": ["C05"], "C01-d": ["C05"], "C16-c": ["C15"], "C01-f": ["C02"], "C08-e": ["C07"], "C12-f": ["C14"]}  # related checks worth running too
 ids = sys.argv[1:] or sorted(d for d in os.listdir(SEEDED) if os.path.isdir(os.path.join(SEEDED, d)))
 mpath = os.path.join(SEEDED, "MATRIX.json")
 matrix = json.load(open(mpath)) if os.path.exists(mpath) else {}
